@@ -495,6 +495,23 @@ func subtractsCost(e *Env, v ssa.Value, costTerm string) bool {
 	switch x := v.(type) {
 	case *ssa.Convert:
 		return subtractsCost(e, x.X, costTerm)
+	case *ssa.Parameter:
+		if a, pe := e.actual(x); a != nil {
+			return subtractsCost(pe, a, costTerm)
+		}
+	case *ssa.Phi:
+		for _, ed := range x.Edges {
+			if !subtractsCost(e, ed, costTerm) {
+				return false
+			}
+		}
+		return len(x.Edges) > 0
+	case *ssa.UnOp:
+		if x.Op == token.MUL {
+			if f := forwarded(x); f != nil {
+				return subtractsCost(e, f, costTerm)
+			}
+		}
 	case *ssa.BinOp:
 		if x.Op == token.SUB {
 			return includesCost(e, x.Y, costTerm, map[*ssa.Phi]bool{}) || subtractsCost(e, x.X, costTerm)
@@ -545,9 +562,10 @@ func chargedOnSuccess(p *Prog, e *Env, costTerm string, x entryCtx, relay bool, 
 			}
 			if call, ok := in.(*ssa.Call); ok && depth < 3 {
 				sc := call.Call.StaticCallee()
-				if sc != nil && len(sc.Blocks) > 0 && sc.Pkg != nil && PkgOf(sc) == "builtInFunctions" && sc.Signature.Recv() != nil {
-					// a method of the same object that produces the output: charged if all its success returns are
-					if res := sc.Signature.Results(); res.Len() == 2 && strings.HasSuffix(res.At(0).Type().String(), "VMOutput") {
+				if sc != nil && len(sc.Blocks) > 0 && sc.Pkg != nil && PkgOf(sc) == "builtInFunctions" && sc != fn {
+					// a function that produces the output (a method of the same object, or a shared output builder that is
+					// handed the cost): charged if all its (success) returns are
+					if res := sc.Signature.Results(); (res.Len() == 2 || res.Len() == 1) && strings.HasSuffix(res.At(0).Type().String(), "VMOutput") {
 						if ok, _ := chargedOnSuccess(p, e.Sub(call, sc), costTerm, x, relay, depth+1); ok {
 							chargeBlocks[b] = "charged inside " + sc.Name()
 						}
@@ -578,7 +596,7 @@ func chargedOnSuccess(p *Prog, e *Env, costTerm string, x entryCtx, relay bool, 
 		}
 		return relay && f.Atom == nilAtom(x.dst)
 	}
-	cut := map[edge]bool{}
+	cut := errorEdgesOfFn(fn) // single-exit style: paths that deliver an error into the common return do not count
 	for ed, fs := range e.EdgeFacts() {
 		for _, f := range fs {
 			if excused(f) {
@@ -598,7 +616,7 @@ func chargedOnSuccess(p *Prog, e *Env, costTerm string, x entryCtx, relay bool, 
 	sort.Strings(whys)
 	n := 0
 	for _, r := range returnsOf(fn) {
-		if !isSuccessReturn(r) {
+		if lastIsError(fn) && !isSuccessReturn(r) {
 			continue
 		}
 		n++
